@@ -17,6 +17,7 @@ Open Scope Z_scope.
 Theorem C14_terminates : forall (file : list raw) ops fuel, (fuel_for file <= fuel)%nat ->
   run_new fuel file ops (init_state file) <> None.
 Proof. exact terminates. Qed.
+Print Assumptions C14_terminates.
 
 (* never lie, truncation: read() on the file cut anywhere before the end marker (whole blocks and
    possibly a cut block whose output is a prefix of the original block's) returns a prefix of the
@@ -26,6 +27,7 @@ Theorem C14_prefix : forall S T fuel,
   exists st', run_new fuel (file_of T) [ORead (-1)] (init_state (file_of T)) = Some ([VBytes (payload T)], st') /\
               is_prefix (payload T) (payload S) = true.
 Proof. exact truncated_read_is_prefix. Qed.
+Print Assumptions C14_prefix.
 
 (* never lie, trailer: a complete stream followed by any bytes (in the last block and/or in
    further blocks) delivers exactly the payload, whatever the trailer *)
@@ -34,6 +36,7 @@ Theorem C14_trailer_exact : forall os o u ex fuel,
   exists st', run_new fuel (file_of (Complete os o u ex)) [ORead (-1)]
                       (init_state (file_of (Complete os o u ex))) = Some ([VBytes (concat (os ++ [o]))], st').
 Proof. exact trailer_read_is_exact. Qed.
+Print Assumptions C14_trailer_exact.
 
 (* _read_bytes(fp, size) over any file object that never returns more than asked: terminates
    (fuel size + 1) and returns exactly `size` bytes or raises ValueError *)
@@ -43,6 +46,7 @@ Theorem C14_read_bytes : forall (F : Type) (fread : F -> Z -> F * bytes),
   exists r f', read_bytes F fread fuel sz f = Some (r, f') /\
                (r = Raise ValueError \/ exists d, r = Ok d /\ len d = sz).
 Proof. exact read_bytes_exact. Qed.
+Print Assumptions C14_read_bytes.
 
 (* what commit "fix: BinaryZlibFile._fill_buffer stops at the end-of-stream marker" repaired
    (finding F7): with the loop as it was, a complete stream followed by at least one byte makes
@@ -51,3 +55,4 @@ Theorem C14_trailing_old_refuted : forall os o u ex fuel,
   (u <> [] \/ exists x r, ex = x :: r /\ x <> []) ->
   run_old fuel (file_of (Complete os o u ex)) [ORead (-1)] (init_state (file_of (Complete os o u ex))) = None.
 Proof. exact trailing_old_spins. Qed.
+Print Assumptions C14_trailing_old_refuted.
